@@ -52,7 +52,7 @@ def floors(tier):
     return {'evaluations': 15000, 'distinct_nontrivial': 4000, 'callbacks_checked': 200000,
             'none_placeholders_seen': 2000, 'histkeys:callback': 9, 'trees_with_none_body_or_args': 50,
             'empty_nodelist_arguments_seen': 500, 'nonempty_nodelist_arguments_seen': 500,
-            'catch_all_visitor_runs': 5000, 'argument_lists_counted': 20000, 'visitor_runs_with_none_results': 3000, 'revisited_after_legacy_reads': 3000, 'recovered_trees_of_truncated_documents': 1000, 'legacy_attribute_reads': 3000, 'histkeys:catch_all_for': 9, 'hist:catch_all_for:visit_specials_node': 200}
+            'catch_all_visitor_runs': 5000, 'argument_lists_counted': 20000, 'visitor_runs_with_none_results': 3000, 'revisited_after_legacy_reads': 3000, 'recovered_trees_of_truncated_documents': 1000, 'present_optional_delimited_arguments': 1000, 'legacy_attribute_reads': 3000, 'histkeys:catch_all_for': 9, 'hist:catch_all_for:visit_specials_node': 200}
 
 
 def setup(rec):
@@ -240,6 +240,20 @@ def check_tree(root, rec, mask=None, none_for=()):
     for i, (gname, gobj, gkw, gtok) in enumerate(got):
         if isinstance(gobj, ParsedArguments) and gobj.argnlist is not None and gobj.arguments_spec_list is not None:
             rec.monitor('argument_lists_counted')
+            # an optional delimited argument ('[', 'o', 'd<open><close>') that is not written is None, nothing else: whatever
+            # stands in its slot starts with the opening delimiter in the source
+            for aspec, entry in zip(gobj.arguments_spec_list, gobj.argnlist):
+                pspec = getattr(aspec, 'parser', None)
+                if isinstance(pspec, str) and (pspec in ('[', 'o') or (pspec[:1] == 'd' and len(pspec) == 3)) and entry is not None:
+                    opener = '[' if pspec in ('[', 'o') else pspec[1]
+                    rec.monitor('present_optional_delimited_arguments')
+                    src = getattr(getattr(entry, 'latex_walker', None), 's', None)
+                    epos = getattr(entry, 'pos', None)
+                    ok = isinstance(entry, N.LatexGroupNode) and entry.delimiters[0] == opener and \
+                        (src is None or not isinstance(epos, int) or src[epos:epos + len(opener)] == opener)
+                    if not ok:
+                        return 'callback %d: the slot of the optional argument %r holds %s although no %r is written there: ' \
+                               'an absent optional argument must be a None placeholder' % (i, pspec, _d(entry), opener), None
             if len(gobj.argnlist) != len(gobj.arguments_spec_list):
                 return 'callback %d: the arguments object holds %d entries for %d declared arguments (%s): a placeholder ' \
                        'for an absent argument is missing' % (i, len(gobj.argnlist), len(gobj.arguments_spec_list),
@@ -312,7 +326,14 @@ def check_case(case, rec):
         nl = parse(s, ctx=ctx, tolerant=case.get('tolerant', False))
     except Exception:
         rec.monitor('unparsable')
-        return
+        if case.get('tolerant', False):
+            return
+        # "any parsed tree": what tolerant parsing makes of it is a tree too
+        try:
+            nl = parse(s, ctx=ctx, tolerant=True)
+            rec.monitor('recovered_trees_of_rejected_documents')
+        except Exception:
+            return
     if nl is None:
         return
     err, info = check_tree(nl, rec)
